@@ -87,7 +87,7 @@ func NormaliseOverlay(p *Program, keep func(*types.Func) bool, opts NormaliseOpt
 	for _, pk := range p.Pkgs {
 		for _, f := range pk.Syntax {
 			for _, d := range f.Decls {
-				if fd, ok := d.(*ast.FuncDecl); ok && fd.Body != nil && in.sroaFunc(pk, f, fd) {
+				if fd, ok := d.(*ast.FuncDecl); ok && fd.Body != nil && (in.sroaFunc(pk, f, fd) || in.splitCases(pk, f, fd)) {
 					sroa = true
 				}
 			}
@@ -704,6 +704,12 @@ func (in *inliner) hoistFirstCall(pk *packages.Package, file *ast.File, encl *as
 		}
 	case *ast.ExprStmt:
 		exprs = append(exprs, &s.X)
+	case *ast.IfStmt:
+		// the condition of an `if` that stands in a statement list (callers only pass such statements)
+		if s.Init != nil {
+			return nil, false
+		}
+		exprs = append(exprs, &s.Cond)
 	default:
 		return nil, false
 	}
@@ -1676,8 +1682,11 @@ func (in *inliner) sroaFunc(pk *packages.Package, file *ast.File, fd *ast.FuncDe
 						}
 					}
 				} else if src, isID := x.Rhs[0].(*ast.Ident); ok && isID {
-					// `x := y`, y a local aggregate of the same struct type: a copy, field by field
+					// `x := y`, y a local aggregate of the same (unexported) struct type: a copy, field by field
 					if v, isVar := info.Defs[id].(*types.Var); isVar {
+						if n, isNamed := v.Type().(*types.Named); !isNamed || n.Obj().Exported() {
+							return true
+						}
 						if sv, isSV := info.Uses[src].(*types.Var); isSV && types.Identical(sv.Type(), v.Type()) {
 							if _, isPtr := v.Type().Underlying().(*types.Pointer); !isPtr {
 								if st := structOf(v.Type()); st != nil && st.NumFields() > 0 {
@@ -1743,6 +1752,11 @@ func (in *inliner) sroaFunc(pk *packages.Package, file *ast.File, fd *ast.FuncDe
 			return true
 		})
 		_, candIsPtr := c.obj.Type().Underlying().(*types.Pointer)
+		// whole-value copies are followed only for unexported helper types (a `charSpec`, a `cursor`): a copy of an
+		// exported API struct is a working copy whose methods get called — dissolving half of such a chain helps nobody
+		if n, isNamed := c.obj.Type().(*types.Named); !isNamed || n.Obj().Exported() {
+			candIsPtr = true
+		}
 		wholeRHS := map[*ast.AssignStmt]bool{} // z = x / z := x
 		wholeLHS := map[*ast.AssignStmt]bool{} // x = y / x = T{...}
 		completeLit := func(e ast.Expr) ([]ast.Expr, bool) {
@@ -2277,6 +2291,16 @@ func simplifyBoolConsts(body *ast.BlockStmt) {
 		switch x := c.Node().(type) {
 		case *ast.BinaryExpr:
 			switch x.Op {
+			case token.EQL, token.NEQ:
+				// `true == true` / `true == false`: what case splitting leaves of a test of the switch tag
+				if (isLit(x.X, "true") || isLit(x.X, "false")) && (isLit(x.Y, "true") || isLit(x.Y, "false")) {
+					same := isLit(x.X, "true") == isLit(x.Y, "true")
+					if same == (x.Op == token.EQL) {
+						c.Replace(ast.NewIdent("true"))
+					} else {
+						c.Replace(ast.NewIdent("false"))
+					}
+				}
 			case token.LAND:
 				switch {
 				case isLit(x.X, "true"):
@@ -2366,4 +2390,137 @@ func printOverlayFile(p *Program, f *ast.File) []byte {
 		return nil
 	}
 	return append(append([]byte{}, header...), out[i:]...)
+}
+
+// splitCases: `switch tag { case A, B: body }` over a local tag that the switch does not assign becomes
+// `case A: body; case B: body` (exactly the same behaviour), and inside the copy for A every comparison
+// of the tag with a constant is replaced by its value — so arms that a clean-up merged ("the two kinds
+// differ only in one test of the kind") read again like the separate arms the per-kind rules expect.
+func (in *inliner) splitCases(pk *packages.Package, file *ast.File, fd *ast.FuncDecl) bool {
+	info := pk.TypesInfo
+	changed := false
+	ast.Inspect(fd.Body, func(n ast.Node) bool {
+		sw, ok := n.(*ast.SwitchStmt)
+		if !ok || sw.Init != nil || sw.Tag == nil {
+			return true
+		}
+		tag, ok := sw.Tag.(*ast.Ident)
+		if !ok {
+			return true
+		}
+		tagObj, ok := info.Uses[tag].(*types.Var)
+		if !ok || tagObj.Parent() == nil || tagObj.Parent() == tagObj.Pkg().Scope() {
+			return true
+		}
+		// the tag is not written inside the switch
+		written := false
+		ast.Inspect(sw.Body, func(m ast.Node) bool {
+			switch x := m.(type) {
+			case *ast.AssignStmt:
+				for _, l := range x.Lhs {
+					if id, ok := l.(*ast.Ident); ok && info.Uses[id] == types.Object(tagObj) {
+						written = true
+					}
+				}
+			case *ast.IncDecStmt:
+				if id, ok := x.X.(*ast.Ident); ok && info.Uses[id] == types.Object(tagObj) {
+					written = true
+				}
+			case *ast.UnaryExpr:
+				if id, ok := x.X.(*ast.Ident); ok && x.Op == token.AND && info.Uses[id] == types.Object(tagObj) {
+					written = true
+				}
+			case *ast.FuncLit:
+				return false
+			}
+			return true
+		})
+		if written {
+			return true
+		}
+		var out []ast.Stmt
+		did := false
+		for _, cl := range sw.Body.List {
+			cc := cl.(*ast.CaseClause)
+			splittable := len(cc.List) >= 2
+			var vals []constant.Value
+			for _, e := range cc.List {
+				tv, ok := info.Types[e]
+				if !ok || tv.Value == nil {
+					splittable = false
+					break
+				}
+				vals = append(vals, tv.Value)
+			}
+			if splittable {
+				ast.Inspect(&ast.BlockStmt{List: cc.Body}, func(m ast.Node) bool {
+					switch x := m.(type) {
+					case *ast.BranchStmt:
+						if x.Tok == token.FALLTHROUGH || x.Label != nil || x.Tok == token.GOTO {
+							splittable = false
+						}
+					case *ast.LabeledStmt:
+						splittable = false
+					}
+					return true
+				})
+			}
+			if !splittable {
+				out = append(out, cc)
+				continue
+			}
+			// comparisons of the tag with constants inside the body
+			type cmp struct {
+				be  *ast.BinaryExpr
+				old ast.BinaryExpr
+				val constant.Value
+			}
+			var cmps []*cmp
+			ast.Inspect(&ast.BlockStmt{List: cc.Body}, func(m ast.Node) bool {
+				if _, isLit := m.(*ast.FuncLit); isLit {
+					return false
+				}
+				be, ok := m.(*ast.BinaryExpr)
+				if !ok || (be.Op != token.EQL && be.Op != token.NEQ) {
+					return true
+				}
+				for _, pair := range [][2]ast.Expr{{be.X, be.Y}, {be.Y, be.X}} {
+					if id, ok := pair[0].(*ast.Ident); ok && info.Uses[id] == types.Object(tagObj) {
+						if tv, ok := info.Types[pair[1]]; ok && tv.Value != nil {
+							cmps = append(cmps, &cmp{be, *be, tv.Value})
+							return false
+						}
+					}
+				}
+				return true
+			})
+			for i, e := range cc.List {
+				for _, c := range cmps {
+					eq := constant.Compare(vals[i], token.EQL, c.val)
+					res := "false"
+					if eq == (c.old.Op == token.EQL) {
+						res = "true"
+					}
+					c.be.X, c.be.Op, c.be.Y = ast.NewIdent("true"), token.EQL, ast.NewIdent(res)
+				}
+				body := cloneBlock(&ast.BlockStmt{List: cc.Body})
+				for _, c := range cmps {
+					*c.be = c.old
+				}
+				out = append(out, &ast.CaseClause{List: []ast.Expr{cloneExpr(e)}, Body: body.List})
+			}
+			did = true
+		}
+		if did {
+			sw.Body.List = out
+			changed = true
+		}
+		return true
+	})
+	if changed {
+		simplifyBoolConsts(fd.Body)
+		in.changed[file] = true
+		in.inlined["case-splitting("+fd.Name.Name+")"]++
+	}
+	return changed
 }
